@@ -152,6 +152,12 @@ Definition host_owned (owner name : string) : bool :=
 
 Definition nonenum_ok (p : prop) : bool := host_owned (p_owner p) (p_name p) || negb (p_e p).
 
+(* 15.2.3.3: getOwnPropertyDescriptor returns for every own property; the
+   recorded deviation (class 7) concerns only [caller] / [stack] of objects made by scripts *)
+Definition broken_ok (p : prop) : bool :=
+  negb (pkind_eqb (p_kind p) PBroken) ||
+  (host_owned (p_owner p) (p_name p) && existsb (String.eqb (p_name p)) broken_names).
+
 (* ---- prototype / constructor links ---- *)
 Definition ctors : list (string * string) :=    (* constructor, [[Prototype]] of its prototype object *)
   [("Object", ""); ("Function", "Object.prototype"); ("Array", "Object.prototype");
